@@ -3,7 +3,9 @@ import ast
 import inspect
 import os
 import sys
+import keyword
 import tempfile
+import unicodedata
 
 from .. import gen, model, spec
 from ..common import Snapshot
@@ -23,7 +25,8 @@ RULE = ("schemas over every field family including nested schemas, config-type f
         "inspect.signature(function) minus its first parameter, nothing is written to stdout (captured at file-"
         "descriptor level and through sys.stdout), schema fingerprint and configuration snapshot unchanged; "
         "non-trivial = >= 3 fields and (>= 1 method or virtual field or nested part); distinct = distinct schema")
-REQUIRED = ("methods_without_a_named_first_parameter", "methods_called_as_the_stub_declares", "fields_registered_under_a_second_name", "fields_also_used_by_another_schema", "methods_with_percent_in_annotations", "methods_registered_twice_compared", "input:nested-configtype", "decorated_methods_compared", "virtual_getters_with_string_annotations", "schemas_with_soft_keyword_names", "calls_without_class_name", "schemas_with_long_declaration", "input:nested-schema", "input:nested-config", "bare:empty", "bare:virtual", "bare:methods", "bare:both", "repeat_generations_compared", "dynamic_config_with_adhoc_field", "stubs_parsed", "attribute_sets_compared", "init_signatures_compared", "method_signatures_compared",
+REQUIRED = ("class_names_with_non_ascii_letters", "class_names_beginning_with_non_ascii_letter",
+            "methods_without_a_named_first_parameter", "methods_called_as_the_stub_declares", "fields_registered_under_a_second_name", "fields_also_used_by_another_schema", "methods_with_percent_in_annotations", "methods_registered_twice_compared", "input:nested-configtype", "decorated_methods_compared", "virtual_getters_with_string_annotations", "schemas_with_soft_keyword_names", "calls_without_class_name", "schemas_with_long_declaration", "input:nested-schema", "input:nested-config", "bare:empty", "bare:virtual", "bare:methods", "bare:both", "repeat_generations_compared", "dynamic_config_with_adhoc_field", "stubs_parsed", "attribute_sets_compared", "init_signatures_compared", "method_signatures_compared",
             "stdout_captures", "side_effect_checks", "input:schema", "input:config", "input:configtype",
             "methods_with_return_annotation", "schemas_with_configtype_field")
 ASSUMPTIONS = ["positional-only parameters are not generated",
@@ -36,6 +39,23 @@ ANNOTATIONS = ["", "", ": int", ": str", ": float", ": typing.Optional[int]", ":
                ": int | None", ": list[int]", ": dict[str, int]", ": typing.LiteralString", ": typing.Any", ": typing.Hashable", ": typing.Literal['50%', '100%']", ": 'typing.Literal[\"%s\"]'", ": typing.Literal['{0}', '%(n)d']"]
 RETURNS = ["", "", " -> int", " -> str", " -> None", " -> typing.List[int]", " -> 'Config'", " -> typing.Optional[str]", " -> bool",
            " -> LocalCls", " -> Outer.Inner", " -> typing.Literal['%d%%']", " -> [int]", " -> (int, str)", " -> int | None", " -> list[str]", " -> typing.NoReturn", " -> typing.Self", " -> 'typing.Literal[\"{}\", \"%\"]'"]
+
+# letters a class name may begin with / continue with: every one is a legal start of a Python identifier (str.isidentifier)
+NAME_INITIALS = ["\u00dc", "\u00c9", "\u00e9", "\u00d8", "\u00f1", "\u0141", "\u041a", "\u0436", "\u0394", "\u03bb", "\u8a2d", "\u5b9a",
+                 "\u05d0", "\u0639", "\u30ab", "\ud55c", "\u00aa", "\u00b5", "\ufb01", "\u2167", "\u1e9e"]
+NAME_TAILS = ["berwachung", "v\u00e9nement", "\u043b\u044e\u0447", "\u5b9a", "Config", "_cfg2", "", "\u00f6\u00dfe", "x\u0301", "9", "_", "\u0660\u0661"]
+
+
+def gen_class_name(rng):
+    """A legal class name that is not plain ASCII: begins with a non-ASCII letter (mostly), or carries one further on."""
+    for _ in range(20):
+        if rng.random() < 0.75:
+            name = rng.choice(NAME_INITIALS) + rng.choice(NAME_TAILS)
+        else:
+            name = rng.choice(["Gr", "_", "C", "T1_", "__"]) + rng.choice([t for t in NAME_TAILS if not t.isascii()])
+        if name.isidentifier() and not keyword.iskeyword(name) and not keyword.iskeyword(unicodedata.normalize("NFKC", name)):
+            return name
+    return "\u00dcberwachung"
 
 
 def gen_method(rng, key):
@@ -134,9 +154,13 @@ def generate(rng, ctx):
     if plain and extra and rng.random() < 0.25:
         # one field object under two names: a second spelling in the same schema, or the object re-used by another schema
         alias = {"mode": rng.choice(["same-schema", "other-schema"]), "of": rng.choice(plain), "key": extra.pop()}
-    return {"schema": schema, "bare": bare, "alias": alias, "name": rng.choice(["AppConfig", "Cfg", "T", "My_Config2"]),
+    case = {"schema": schema, "bare": bare, "alias": alias, "name": rng.choice(["AppConfig", "Cfg", "T", "My_Config2"]),
             "as": rng.choice(["schema", "config", "configtype", "nested-schema", "nested-config", "nested-configtype"]),
             "pick": rng.randrange(8)}
+    if rng.random() < 0.15:
+        # class names are identifiers of the language, not of ASCII: letters of other scripts, also as the first character
+        case["name"] = gen_class_name(rng)
+    return case
 
 
 def abbreviate(case):
@@ -192,6 +216,14 @@ def run(case, ctx, res):
     spec_root = root
     schema = built.schema
     name = case["name"]
+    # the parser spells identifiers in NFKC (PEP 3131): that spelling is the class's name in the parsed stub
+    parsed_name = unicodedata.normalize("NFKC", name)
+    if not name.isascii():
+        res.count("class_names_with_non_ascii_letters")
+        if not name[0].isascii():
+            res.count("class_names_beginning_with_non_ascii_letter")
+        if parsed_name != name:
+            res.count("class_names_the_parser_normalises")
     res.count("input:" + case["as"])
     if case.get("bare"):
         res.count("bare:" + case["bare"])
@@ -343,8 +375,8 @@ def run(case, ctx, res):
         return
     res.count("stubs_parsed")
     classes = [n for n in tree.body if isinstance(n, ast.ClassDef)]
-    if len(classes) != 1 or classes[0].name != name:
-        res.viol("M-stub", "class", "stub declares classes %r, expected exactly one named %r" % ([c.name for c in classes], name))
+    if len(classes) != 1 or classes[0].name != parsed_name:
+        res.viol("M-stub", "class", "stub declares classes %r, expected exactly one named %r" % ([c.name for c in classes], parsed_name))
         return
     body = classes[0].body
     got_attrs = [n.target.id for n in body if isinstance(n, ast.AnnAssign) and isinstance(n.target, ast.Name)]
